@@ -481,6 +481,11 @@ def random_connection(rng, idx=0, v6=None, suite=None, features=None):
     f.setdefault("prefix_cid", rng.random() < 0.08 and not f["retry"])
     f.setdefault("long", False)
     f.setdefault("reorder", rng.random() < 0.2)
+    # both endpoints happen to choose the same connection-ID bytes (each picks its own, RFC 9000 5.1; 1-byte CIDs collide
+    # once in 256 connections); not combined with Retry / NEW_CONNECTION_ID / prefix-related CIDs to keep the case pure
+    f.setdefault("same_cid", rng.random() < 0.06 and not f["retry"] and not f["new_cid"] and not f["prefix_cid"])
+    if f["same_cid"]:
+        f["scid_c_len"] = f["scid_s_len"] = max(1, f["scid_c_len"])
     offer = list(SUITES)
     if f["offer_order"] == "suite-first":
         offer = [f["suite"]] + [c for c in offer if c != f["suite"]]
@@ -499,6 +504,9 @@ def random_connection(rng, idx=0, v6=None, suite=None, features=None):
               t0=1_700_000_100_000_000 + idx * 1000 + rng.randrange(10 ** 6), pn_start=pn_start,
               cmac=bytes([2, 0, 2, rng.randrange(256), rng.randrange(256), idx & 255]),
               smac=bytes([2, 0, 3, rng.randrange(256), rng.randrange(256), idx & 255]))
+    if f["same_cid"]:
+        c.scid_s = c.scid_c
+        c.dcid_for_client = c.scid_s
     split = None
     if f["ch_split"]:
         def split(n, mode=f["ch_split"]):
